@@ -338,6 +338,9 @@ def _payload_class(repo, m, body: list[ast.stmt], var: str | None) -> tuple[str 
 
 def _dispatch_tables(ctx, rep) -> None:
     repo = ctx.repo
+    from .common import hyperparameters_from_group
+
+    rep.attempt("hyperparameters_from_group", hyperparameters_from_group, ctx, rep, "C17.4")
     tables = [
         ("_instantiate_distributor", f"{TYPES}:DistributedConfig", True, {
             None: "Distributor", "DDPShampooConfig": "DDPDistributor", "FSDPShampooConfig": "FSDPDistributor", "FullyShardShampooConfig": "FullyShardDistributor",
@@ -354,6 +357,9 @@ def _dispatch_tables(ctx, rep) -> None:
         if len(chains) != 1:
             raise AnalysisError(f"C17.4: expected exactly one type-dispatch chain in {meth}, found {len(chains)}")
         chain = chains[0]
+        subj = {a.subject for a in chain if a.kind in ("type_is", "isinstance", "is_none")}
+        ok_subj = len(subj) == 1 and ("self.defaults" not in next(iter(subj)))
+        rep.ob("C17.4", f"{meth}/dispatch-subject", ok_subj, fi.loc(chain[0].node), f"the dispatch tests {sorted(subj)}: one subject, the group's own config / the constructor argument (never the optimizer-level defaults)", sample=True)
         base = repo.cls(base_q)
         classes = [None] * with_none + repo.concrete_subclasses(base)
         n = 0
